@@ -35,7 +35,28 @@ func init() { Register(c10{}) }
 
 func (c10) ID() string { return "C10" }
 
+// c10PackSizes are the packet sizes a hostile server announces (TDS_ENV_PACKSIZE carries the number as text).
+var c10PackSizes = []string{"0", "1", "4", "7", "8", "9", "10", "16", "-1", "-5", "-512", "-2147483648", "-9223372036854775808",
+	"255", "256", "511", "512", "513", "65535", "65536", "65543", "70000", "131072", "16777216", "2147483647", "2147483648",
+	"4294967295", "4294967296", "4294967304", "9223372036854775807", "9223372036854775808", "99999999999999999999", "", " ", "abc",
+	" 512", "512 ", "+512", "0x200", "5e2", "512.0", "\x00", "٥١٢"}
+
 var c10Subst = []byte{0, 1, 2, 3, 4, 7, 8, 0x7F, 0x80, 0xFE, 0xFF}
+
+// c10SubstN is the number of substitutions tried per byte: the absolute values above and the original value
+// plus and minus 1..4 (lengths and counts that are slightly off).
+const c10SubstN = 11 + 8
+
+func c10SubstVal(orig byte, k int) byte {
+	if k < len(c10Subst) {
+		return c10Subst[k]
+	}
+	k -= len(c10Subst)
+	if k < 4 {
+		return orig + byte(k+1)
+	}
+	return orig - byte(k-3)
+}
 
 type c10Enum struct {
 	entries []peer.Entry
@@ -63,7 +84,7 @@ func c10BuildEnum(tier string) *c10Enum {
 			seen[key] = true
 		}
 		e.entries = append(e.entries, z)
-		e.total += len(z.Bytes) * len(c10Subst)
+		e.total += len(z.Bytes) * c10SubstN
 		e.offsets = append(e.offsets, e.total)
 	}
 	c10Enums[tier] = e
@@ -88,14 +109,14 @@ func c10LenTypes() []peer.Entry {
 var c10CrossSeqs = [][]byte{{0xD1, 0xD1}, {0xD1, 0xD7}, {0xD7, 0xD1}, {0xD7, 0xD7}, {0xD7, 0xD7, 0xD1}, {0xD1, 0xD1, 0xD7}}
 
 func (c10) NRuns(tier string) int {
-	n := c10BuildEnum(tier).total + len(c10LenTypes())*256 + 10*2*24 + len(fmtNames)*len(c10CrossSeqs)
+	n := c10BuildEnum(tier).total + len(c10LenTypes())*256 + 10*2*24 + len(fmtNames)*len(c10CrossSeqs) + len(c10PackSizes)
 	if tier == "thorough" {
 		return n + 3000000
 	}
 	return n + 6000
 }
 func (c10) Rule() string {
-	return "corruption faults on server responses: (enumerated) every byte of every response of the entry set (quick: one entry per package type and data-type family; thorough: the whole 410-entry zoo) substituted by each of {0,1,2,3,4,7,8,0x7f,0x80,0xfe,0xff}; every one-byte-length data type x every data length 0..255 with random data; packet headers with every length 0..9 and all message types; every format followed by 2..3 data tokens of its own and the other family; (seeded) 2- and 4-byte windows overwritten with boundary integers, truncation plus garbage, known token followed by random bytes, format followed by arbitrary row bytes, purely random streams; DebugLogPackages on in a third of the runs; non-trivial = the corrupted bytes reached a package parser (not rejected at the packet layer); distinct = distinct (kind, subject, offset, value) / wire hash"
+	return "corruption faults on server responses: (enumerated) every byte of every response of the entry set (quick: one entry per package type and data-type family; thorough: the whole 410-entry zoo) substituted by each of {0,1,2,3,4,7,8,0x7f,0x80,0xfe,0xff} and by its own value +-1..4; every one-byte-length data type x every data length 0..255 with random data; packet headers with every length 0..9 and all message types; every format followed by 2..3 data tokens of its own and the other family; 43 announced packet sizes (negative, tiny, 8, beyond 16 and 32 bits, not numbers); after every response the client sends one more 600-byte request; (seeded) 2- and 4-byte windows overwritten with boundary integers, truncation plus garbage, known token followed by random bytes, format followed by arbitrary row bytes, purely random streams; DebugLogPackages on in a third of the runs; non-trivial = the corrupted bytes reached a package parser (not rejected at the packet layer); distinct = distinct (kind, subject, offset, value) / wire hash"
 }
 func (c10) Components() map[string]string {
 	return map[string]string{"tds (packet reader, Channel, PacketQueue, every package/format/value parser, String methods via debug log), asetypes.GoValue": "real (rewritten)", "transport": "stub: simrt.Conn", "server": "stub: byzantine peer (sim/peer encoders + corruption faults)", "process limits": "worker under ulimit -v, TotalAlloc measured per run"}
@@ -125,7 +146,8 @@ func (c10) Gen(r *Rand, idx int, tier string) interface{} {
 		}
 		z := e.entries[k]
 		j := i - base
-		off, val := j/len(c10Subst), c10Subst[j%len(c10Subst)]
+		off := j / c10SubstN
+		val := c10SubstVal(z.Bytes[off], j%c10SubstN)
 		var body []byte
 		if z.Needs != "" {
 			body = append(body, zooIndex[z.Needs].Bytes...)
@@ -186,6 +208,16 @@ func (c10) Gen(r *Rand, idx int, tier string) interface{} {
 		body = append(body, peer.Done(0, 0, 0)...)
 		p.Kind, p.Subject = "fmt-cross", strings.SplitN(f.Name, "/", 2)[0]
 		p.Desc = fmt.Sprintf("%s followed by data tokens %x (each with the bytes of a valid data package)", f.Name, seq)
+		p.Wire = hex.EncodeToString(c10Wrap(body))
+		return p
+	}
+	i -= len(fmtNames) * len(c10CrossSeqs)
+	if i < len(c10PackSizes) {
+		// an environment change announcing a packet size; the client's next request uses it
+		val := c10PackSizes[i]
+		body := append(peer.EnvChange(peer.EnvMember{Type: 4, New: val, Old: "512"}), peer.Done(0, 0, 0)...)
+		p.Kind, p.Subject = "packsize", "ENVCHANGE"
+		p.Desc = fmt.Sprintf("packet size %q announced, then the client sends 600 bytes", val)
 		p.Wire = hex.EncodeToString(c10Wrap(body))
 		return p
 	}
@@ -255,7 +287,8 @@ func (c10) Gen(r *Rand, idx int, tier string) interface{} {
 		body, _, _ := buildResponse(names)
 		n := 1 + r.Intn(3)
 		for k := 0; k < n; k++ {
-			body[r.Intn(len(body))] = Pick(r, c10Subst)
+			at := r.Intn(len(body))
+			body[at] = c10SubstVal(body[at], r.Intn(c10SubstN))
 		}
 		p.Kind, p.Subject = "multi-subst", "response"
 		p.Desc = fmt.Sprintf("%v with %d substituted bytes", names, n)
@@ -291,7 +324,7 @@ func (c10) Run(plan interface{}, schedSeed uint64, replay []simrt.Choice, lenien
 	runtime.ReadMemStats(&ms0)
 	cfg := simrt.Config{Seed: schedSeed, Strategy: "uniform", ColdQueueLocks: true, EOFReadCostMs: 200, MaxSteps: 60000, Replay: replay, Lenient: lenient, KeepLog: keepLog}
 	got := runResp(cfg, respDelivery{Packets: [][]byte{wire}, TermAt: -1},
-		respClient{QueueSize: 100, ReadTimeoutS: 1, DebugLog: p.DebugLog, DrainFor: 5 * time.Second, NoDump: true})
+		respClient{QueueSize: 100, ReadTimeoutS: 1, DebugLog: p.DebugLog, DrainFor: 5 * time.Second, NoDump: true, SendAfter: 600})
 	runtime.ReadMemStats(&ms1)
 	out := got.Out
 	StdOutcome(v, out)
@@ -371,5 +404,5 @@ func hashString(s string) uint64 {
 
 // RequiredProbes: a batch in which one of these never fired explored nothing of that kind (exit 2, not a pass).
 func (c10) RequiredProbes() []string {
-	return []string{"kind:subst", "kind:datalen", "kind:header", "kind:fmt-cross", "kind:window", "kind:random-stream"}
+	return []string{"kind:subst", "kind:datalen", "kind:header", "kind:fmt-cross", "kind:packsize", "kind:window", "kind:random-stream"}
 }
